@@ -207,16 +207,14 @@ theorem returnAliases_mod (n : Nat) (p : Program) (c k : Nat) (r : Var) (hk : ma
   have : bit < k := by omega
   simp [this]
 
-theorem check_sound_ret (k : Kernel) (h : k.check = true) (r : Var) (hr : k.ret = some r) :
-    ∀ c j, j ∈ returnAliases k.nargs k.ir c r → j ∈ k.retAllowed := by
+theorem check_sound_ret (k : Kernel) (h : k.check = true) (r : Var) (allowedR : List Nat) (hr : (r, allowedR) ∈ k.rets) :
+    ∀ c j, j ∈ returnAliases k.nargs k.ir c r → j ∈ allowedR := by
   simp only [Kernel.check, Bool.and_eq_true, decide_eq_true_eq, List.all_eq_true, List.mem_range,
     List.contains_iff_mem] at h
   obtain ⟨⟨hb, _⟩, hall⟩ := h
   intro c j hj
   rw [returnAliases_mod _ _ c k.bits r hb] at hj
-  have := (hall (c % 2 ^ k.bits) (Nat.mod_lt _ (by positivity))).2
-  simp only [hr, List.all_eq_true, List.contains_iff_mem] at this
-  exact this j hj
+  exact (hall (c % 2 ^ k.bits) (Nat.mod_lt _ (by positivity))).2 (r, allowedR) hr j hj
 
 theorem check_public (k : Kernel) (h : k.check = true) (hp : k.isPublic = true) : k.allowed = [] := by
   simp only [Kernel.check, Bool.and_eq_true, decide_eq_true_eq, Bool.or_eq_true, Bool.not_eq_true'] at h
